@@ -330,7 +330,10 @@ class Sim:
         if not isinstance(dsk, Mapping):
             dsk = dsk.__dask_graph__()
         dsk = convert_legacy_graph(dsk)
-        order = {k: i for i, k in enumerate(dsk)}
+        # canonical task order: by key text (names are content tokens or seeded uuids), never
+        # by dict position - Dask assembles graphs through sets, whose iteration order
+        # depends on PYTHONHASHSEED
+        order = {k: i for i, k in enumerate(sorted(dsk, key=_key_text))}
         if isinstance(keys, list):
             wanted = set(flatten(keys))
         else:
@@ -412,6 +415,12 @@ class Sim:
             raise state["error"]
         self.event("get-done", gid)
         return nested_get(keys, cache)
+
+
+def _key_text(k):
+    if isinstance(k, tuple):
+        return (str(k[0]), tuple((0, x) if isinstance(x, int) else (1, str(x)) for x in k[1:]))
+    return (str(k), ())
 
 
 def _cheap_node(node):
